@@ -104,6 +104,22 @@ static void scheme(size_t len, size_t count, size_t thr, int gen_keys)
 	}
 }
 
+static void genmi(size_t len, int cls)
+{	/* user key generation from generator candidates: tape classes
+	   0 random; 1 first candidate x (its minimal polynomial is f0: rejected), then random;
+	   2 candidates 0, 1, random; 3 all three rejected (x, 0, 1) => error */
+	octet m0[32], tape[96], out[32], echo[128]; err_t rc;
+	belsStdM(m0, len, 0); vxRandBuf(tape, 96); memset(out, 0xEE, 32);
+	if (cls == 1 || cls == 3) { memset(tape, 0, len); tape[0] = 2; }
+	if (cls == 2) { memset(tape, 0, 2 * len); tape[len] = 1; }
+	if (cls == 3) { memset(tape + len, 0, 2 * len); tape[2 * len] = 1; }
+	prngEchoStart(echo, tape, 3 * len);
+	rc = belsGenMi(out, len, m0, prngEchoStepR, echo);
+	jBegin(); jStr("op", "genmi"); jInt("len", (long long)len); jInt("cls", cls); jOct("m0", m0, len); jOct("tape", tape, 3 * len);
+	jOct("out", out, len); jInt("rc", rc); jEnd();
+	if (rc == ERR_OK) { jBegin(); jStr("op", "valm"); jOct("m", out, len); jInt("rc", belsValM(out, len)); jEnd(); }
+}
+
 static void std2(size_t len, size_t count, size_t thr)
 {	/* Share2 / Recover2 on the standard keys (blocks of len + 1 octets, first octet = user number) */
 	octet si[16 * 33], s[32], tape[16 * 32], out[32], echo[128]; err_t rc; size_t i;
@@ -130,7 +146,7 @@ int main(int argc, char** argv)
 	if (argc > 1 && strcmp(argv[1], "suite") == 0)
 	{	/* small deterministic run for the configuration / sanitizer sweeps */
 		for (l = 0; l < 3; ++l) { scheme(LN[l], 3, 2, 0); scheme(LN[l], 5, 3, 0); std2(LN[l], 16, 3); }
-		scheme(16, 2, 2, 1);
+		scheme(16, 2, 2, 1); genmi(16, 1); genmi(24, 2);
 		return 0;
 	}
 	for (l = 0; l < 3; ++l)
@@ -142,6 +158,7 @@ int main(int argc, char** argv)
 				if (count <= 6 && !g_thorough && l > 0 && (count > 4 || (count + thr + l) % 2)) continue;
 				scheme(LN[l], count, thr, 0);
 			}
+	for (l = 0; l < 3; ++l) { int c; for (c = 0; c < 4; ++c) if (g_thorough || l == 0 || c == 1) genmi(LN[l], c); }
 	for (l = 0; l < 3; ++l) { scheme(LN[l], 3, 2, 1); std2(LN[l], 16, 1 + vxRandN(16)); std2(LN[l], 1, 1); std2(LN[l], 16, 16); }
 	return 0;
 }
